@@ -130,6 +130,12 @@ pub fn generate(prop: &str, _tier: Tier, rng: &mut Rng, _idx: u64) -> Case {
                 cfg.w_ops = [rng.range(1, 3) as u32, 3, 4, 0, 0, rng.range(0, 1) as u32];
                 cfg.all_reasons = true;
             }
+            if rng.chance(1, 4) {
+                // inbound QoS 0/1/2 traffic at the same time: the server's packet identifiers
+                // live in their own space and coincide with the client's all the time
+                cfg.inbound = true;
+                cfg.inbound_absent_ids = true;
+            }
             let mut g = Gen::new(cfg, rng);
             g.preamble();
             let jump = g.rng.chance(1, 8);
